@@ -108,6 +108,12 @@ def addEqual (ins : List Label) (num : Nat) : Prog Label :=
       | g0 :: g1 :: rest => .add ⟨last, AND, [g0, g1]⟩ rfl (andChain rest last)
       | [] => .fail "Py:IndexError")
 
+/-- `add_equal` with any integer constant: a negative constant is treated like one that does not fit -/
+def addEqualZ (ins : List Label) (num : Int) : Prog Label :=
+  match num with
+  | .ofNat n => addEqual ins n
+  | .negSucc _ => emit ALWAYS_FALSE [] rfl
+
 /-! ## `generation.py` -/
 
 /-- `_get_new_labels(circuit, n, other_restrictions=restr)` -/
